@@ -183,7 +183,7 @@ theorem flatMap_addAt_perm {p : Layout} {j : Nat} {e : Entry} (hj : j < p.length
   | cons f p ih =>
     cases j with
     | zero =>
-      simp only [modify_cons, flatMap_cons, append_assoc]
+      simp only [modify_cons, if_true, flatMap_cons, append_assoc]
       exact perm_middle
     | succ j =>
       simp only [modify_succ_cons, flatMap_cons]
